@@ -62,6 +62,20 @@ static inline std_reverse_iterator_##LIST##_const_iterator *std_reverse_iterator
 static inline ELEM std_reverse_iterator_##LIST##_const_iterator_op_deref(std_reverse_iterator_##LIST##_const_iterator it) \
 { __CPROVER_assert(it.i > 0 && it.i <= it.l->n, "reverse iterator dereferenced inside [rbegin,rend)"); LIST##_const_iterator f; f.l = it.l; f.i = it.i - 1; return DEREF_FWD(f); }
 
+/* random-access arithmetic and ordering of an index iterator {LIST *l; int i;} (QList iterators are random access) */
+#define DEFINE_ITERATOR_ARITH(IT) \
+static inline IT IT##_op_minus__int(IT a, int n) { a.i = a.i - n; return a; } \
+static inline IT IT##_op_minus__longlong(IT a, long long n) { a.i = (int)((long long)a.i - n); return a; } \
+static inline IT IT##_op_plus__int(IT a, int n) { a.i = a.i + n; return a; } \
+static inline IT IT##_op_plus__longlong(IT a, long long n) { a.i = (int)((long long)a.i + n); return a; } \
+static inline IT *IT##_op_dec(IT *a) { a->i = a->i - 1; return a; } \
+static inline IT *IT##_op_addassign__int(IT *a, int n) { a->i = a->i + n; return a; } \
+static inline IT *IT##_op_subassign__int(IT *a, int n) { a->i = a->i - n; return a; } \
+static inline BOOL IT##_op_lt__##IT(IT a, IT b) { return a.i < b.i; } \
+static inline BOOL IT##_op_gt__##IT(IT a, IT b) { return a.i > b.i; } \
+static inline BOOL IT##_op_le__##IT(IT a, IT b) { return a.i <= b.i; } \
+static inline BOOL IT##_op_ge__##IT(IT a, IT b) { return a.i >= b.i; }
+
 #ifndef FIND_IF_REQUIRES
 /* IT##_valid_range(first,last): last is reachable from first by ++ (forward: first.i <= last.i; reverse: first.i >= last.i) */
 #define FIND_IF_REQUIRES(IT, first, last) __CPROVER_assert(IT##_valid_range(first, last), "std::find_if precondition: [first,last) is a valid range (last reachable from first)")
